@@ -35,6 +35,8 @@ prop("C17",
 prop("C07", claimed=False, jobs=8, timeout=600, mir=None, level_text="", level_note="")
 prop("C08", claimed=False, jobs=12, timeout=600, mir=None, level_text="", level_note="")
 
+prop("C06", claimed=False, jobs=14, timeout=900, mir=None, level_text="", level_note="")
+
 
 def bounds_of(prop_id, short):
     """human-readable bound of one harness, derived from its name suffixes"""
